@@ -1,5 +1,5 @@
 """one simulation run in a fresh process; prints a JSON line with the SHA-256 of everything observable.
-usage: determinism_worker.py <case index> <runner seed> <mode>     mode: plain | perturbed | twice | after_other"""
+usage: determinism_worker.py <case index> <runner seed> <mode>     mode: plain | perturbed | twice | after_other | after_twin"""
 import copy
 import hashlib
 import json
@@ -72,6 +72,19 @@ def other_config(ci):
     return cfg
 
 
+def twin_config(ci):
+    """the SAME configuration except for the fundamental correlations (none where the case has one, one where it has none), run first in
+    the mode `after_twin`: same markets, same volatilities, same everything else"""
+    cfg = config(ci)
+    if "fundamentalCorrelations" in cfg["simulation"]:
+        del cfg["simulation"]["fundamentalCorrelations"]
+    else:
+        cfg["simulation"]["fundamentalCorrelations"] = {"pairwise": [["SpotA-0", "SpotB", 0.8]]}
+    for ses in cfg["simulation"]["sessions"]:
+        ses["iterationSteps"] = min(ses["iterationSteps"], 12)
+    return cfg
+
+
 def one_run(cfg, seed, perturb):
     import numpy as np
     from pams.runners import SequentialRunner
@@ -119,6 +132,9 @@ def main():
         d, ok, counts = one_run(cfg, seed, 0)
     elif mode == "after_other":
         one_run(other_config(ci), seed + 5, 0)
+        d, ok, counts = one_run(cfg, seed, 0)
+    elif mode == "after_twin":
+        one_run(twin_config(ci), seed + 9, 0)
         d, ok, counts = one_run(cfg, seed, 0)
     elif mode == "perturbed":
         d, ok, counts = one_run(cfg, seed, 3 + ci)
